@@ -195,11 +195,14 @@ def run_check(check_name: str, tier: str, seed: int, replay: str | None = None, 
 
     known = load_known(prop)
     known_hit: dict = {}
+    known_keys: dict = {}
     new_viol = []
     for v, case in viols:
         e = classify(prop, v["key"], known)
         if e is not None:
             known_hit.setdefault(e["key"], [e, 0])[1] += 1
+            kk = known_keys.setdefault(e["key"], {})
+            kk[v["key"]] = kk.get(v["key"], 0) + 1
         else:
             new_viol.append((v, case))
 
@@ -233,6 +236,8 @@ def run_check(check_name: str, tier: str, seed: int, replay: str | None = None, 
         "samples": samples[:6] or [None],
         "counters": counters,
         "known_findings_witnessed": {k: c for k, (e, c) in known_hit.items()},
+        # the concrete violation keys that each listed pattern covered in this run (nothing else is suppressed)
+        "known_findings_concrete_keys": known_keys,
         "violating_keys": sorted(printed),
         "inconclusive": inconclusive[:10],
         "harness_errors": len(errors),
